@@ -269,7 +269,7 @@ def run(ctx):
     _catalogue_isolation(ctx)   # before the round trips: they use a fresh default container
     cat = _items_catalogue()
     SF = StreamsFunctions()
-    per_fn = 60 if ctx.quick else 800
+    per_fn = 60 if ctx.quick else 12000
     stats = set()
     fns = sorted(secs_streams_functions, key=lambda c: (c.stream, c.function))
     for i, cls in enumerate(fns):
